@@ -454,7 +454,7 @@ def run_unit(unit, tier, keep=False, verbose=False):
             # 'unchecked': [{key: regex on the obligation key, line_match: regex on the source line, reason}] = single
             # generated obligations of a class DESIGN section 5 lists as unchecked; left out of the solver's goals,
             # kept in the log, attributed to no property
-            props = list_properties(gb2, checks + unit.get('cbmc_flags', []) + ['--unwind', str(unit.get('unwind', 70)), '--unwinding-assertions', '--object-bits', str(obits)] + (['--unwindset', ','.join(uws)] if uws else []), scratch)
+            props = list_properties(gb2, checks + unit.get('cbmc_flags', []) + ['--unwind', str(unit.get('unwind', 70)), '--unwinding-assertions', '--object-bits', str(obits)] + (['--unwindset', ','.join(uws)] if uws else []) + ([] if unit.get('dfcc', True) else ['--drop-unused-functions']), scratch)
             if props is None:
                 res['status'] = 'UNDECIDED'
                 res['why'] = 'cannot list properties'
